@@ -456,5 +456,7 @@ func c08R3(p *engine.Prog, r *engine.Report, af *ssa.Function) {
 	appStateRefreshRule(p, r, "C08-R6", map[string]bool{"AppState.FinalizePrecommit": true})
 	insertBlockStoresDiffRule(p, r, "C08-R6")
 	subChainOnCheckStateRule(p, r, "C08-R6")
+	// the validator view a fork is judged against: built over the check state's own registry, rebuilt from empty
+	importRules(p, r, "C10", map[string]string{"C10-R4": "C08-R7", "C10-R6": "C08-R7"})
 	r.Floor("C08-R6", 3, "FinalizePrecommit, Precommit, insertBlock")
 }
